@@ -178,8 +178,15 @@ fn run_direct(case: &Case, ctx: &mut Ctx) -> Result<(), Fail> {
                         st.update(0, Some(v));
                     }
                     _ => {
-                        registry.get_or_create_histogram(&keys[*k], |h| HistogramFn::record(h, 1.0));
-                        st.update(1, None);
+                        // (the flag that keeps counter/gauge values unchanged selects the batch entry point here)
+                        if *same {
+                            registry.get_or_create_histogram(&keys[*k], |h| HistogramFn::record_many(h, 1.0, 2));
+                            st.update(2, None);
+                            ctx.class("histogram-updated-through-record_many");
+                        } else {
+                            registry.get_or_create_histogram(&keys[*k], |h| HistogramFn::record(h, 1.0));
+                            st.update(1, None);
+                        }
                     }
                 }
                 if (0..3).filter(|kd| model.get(&(*k, *kd)).map(|s| s.live).unwrap_or(false)).count() >= 2 {
@@ -310,8 +317,14 @@ pub fn case_prom(bytes: &[u8], _s: &[u8], ctx: &mut Ctx) -> Result<(), Fail> {
                         st.update(0, Some(v));
                     }
                     _ => {
-                        rec.register_histogram(&keys[*k], &META).record(1.0);
-                        st.update(1, None);
+                        if *same {
+                            rec.register_histogram(&keys[*k], &META).record_many(1.0, 2);
+                            st.update(2, None);
+                            ctx.class("histogram-updated-through-record_many");
+                        } else {
+                            rec.register_histogram(&keys[*k], &META).record(1.0);
+                            st.update(1, None);
+                        }
                     }
                 }
             }
